@@ -22,7 +22,17 @@ def _git(p):
     return f
 
 
+def _java(p):
+    def f():
+        from . import p_java
+        return p_java.make(p)
+    return f
+
+
 REGISTRY = {
+    "C01": _java("C01"),
+    "C02": _java("C02"),
+    "C07": _java("C07"),
     "C14": _git("C14"),
     "C15": _git("C15"),
     "C10": _mod("p_bs"),
